@@ -64,6 +64,13 @@ impl DateTime {
         }
     }
 
+    /// Changes the associated time zone, or returns `None` if the local date-time in the new zone is out of range.
+    pub fn checked_with_offset(self, offset: time::UtcOffset) -> Option<Self> {
+        self.inner
+            .checked_to_offset(offset)
+            .map(|inner| Self { inner })
+    }
+
     /// Retrieves a date component.
     pub fn date(self) -> Date {
         Date {
